@@ -309,6 +309,16 @@ Rate(r) ==
                  !.tree = TRUE]
      IN Conforms(st, e, st')
 
+\* things that happen AROUND the curve and leave no trace in it: a rating
+\* that is interrupted by a fault outside the library (memory, Ctrl-C), and
+\* another user of the rating module who builds a rater with hyper-parameters
+\* of their own (the later ratings are the ones the statement describes)
+Around(kind, r) ==
+  /\ kind \in {"rate_fault", "get_rater_kw"} /\ r \in Raters
+  /\ ~Pseudo(r)
+  /\ UNCHANGED vars
+  /\ Conforms(st, [E0 EXCEPT !.op = kind], st')
+
 \* ------------------------------------------------------------- next
 Next ==
   \/ \E p \in Pipes \cup BadPipes : MutatePL(p)
@@ -326,6 +336,7 @@ Next ==
   \/ Scan
   \/ GetInit
   \/ \E r \in Raters : Rate(r)
+  \/ \E kind \in {"rate_fault", "get_rater_kw"}, r \in Raters : Around(kind, r)
 
 Spec == Init /\ [][Next]_vars
 
